@@ -4,25 +4,47 @@ import os
 
 VERIF = os.path.dirname(os.path.dirname(os.path.abspath(__file__)))
 
+BY_DESIGN = {
+    "r2-C16-m1": "needs hooks that re-parent other nodes: outside the fault model (hooks observe and raise)",
+    "r3-C01-m1": "needs hooks that re-parent other nodes: outside the fault model (hooks observe and raise)",
+    "r2-C16-m2": "a TreeError-refused assignment that fires (and undoes) hooks: C16 leaves refused calls unconstrained; C18 catches it",
+    "r3-C05-m2": "empty groups dropped under a filter: that is C06's statement (C06 catches it), C05 is about default arguments",
+    "r4-C19-m2": "deepcopy goes wrong only in a window of depths that depends on the caller's stack depth",
+}
+
 
 def main():
     sd = os.path.join(VERIF, "seeded")
-    rows = []
+    rows, benign = [], []
     for name in sorted(os.listdir(sd)):
         mp = os.path.join(sd, name, "meta.json")
         if not os.path.exists(mp):
             continue
         m = json.load(open(mp))
         det = m.get("detected_by", [])
-        rows.append((name, m.get("property"), m.get("summary", "").replace("|", "/"), m.get("needs", "").replace("|", "/"), det,
-                     m.get("machinery_errors", [])))
+        ran = sorted(c for c in m.get("ran", {}).get("checks", {}))
+        row = (name, m.get("property"), m.get("summary", "").replace("|", "/").replace("\n", " "), m.get("needs", "").replace("|", "/").replace("\n", " "), det,
+               m.get("machinery_errors", []), ran)
+        (benign if name.startswith("benign") else rows).append(row)
     with open(os.path.join(sd, "SUMMARY.md"), "w") as f:
-        f.write("# Seeded changes and the checks that catch them (quick tier unless noted)\n\n")
-        f.write("| seed | breaks | change | needs | caught by | target caught |\n|---|---|---|---|---|---|\n")
-        for name, prop, summ, needs, det, broken in rows:
-            f.write("| %s | %s | %s | %s | %s | %s |\n" % (name, prop, summ[:160], needs[:160], ", ".join(det) or "-", "yes" if prop in det else "**NO**"))
-        f.write("\n%d seeds, %d caught by the check of the property they break.\n" % (len(rows), sum(1 for r in rows if r[1] in r[4])))
-    print(open(os.path.join(sd, "SUMMARY.md")).read())
+        f.write("# Seeded changes and the checks that catch them (quick tier)\n\n")
+        f.write("Each change was produced by a sub-agent that saw only the property text and a scratch worktree; kept after confirming that it applies,\n"
+                "that the existing suite is unchanged (160 passed / 3 dot-binary failures) and that its demonstration fails with it and passes without it.\n"
+                "`checks run` lists the checks the change was run through (the full matrix, or the checks of its module family).\n\n")
+        f.write("| seed | breaks | change | needs | caught by | own check | checks run |\n|---|---|---|---|---|---|---|\n")
+        for name, prop, summ, needs, det, broken, ran in rows:
+            own = "yes" if prop in det else ("no: " + BY_DESIGN[name] if name in BY_DESIGN else "**NO**")
+            if broken:
+                own += " (machinery errors: %s)" % ", ".join(broken)
+            f.write("| %s | %s | %s | %s | %s | %s | %s |\n" % (name, prop, summ[:200], needs[:200], ", ".join(det) or "-", own,
+                                                            "all 20" if len(ran) == 20 else ", ".join(ran)))
+        f.write("\n%d seeded changes, %d caught by the check of the property they break, %d caught by some check.\n" % (
+            len(rows), sum(1 for r in rows if r[1] in r[4]), sum(1 for r in rows if r[4])))
+        f.write("\n## Behaviour-preserving refactorings (must raise no alarm)\n\n| refactoring | change | alarms | machinery errors |\n|---|---|---|---|\n")
+        for name, prop, summ, needs, det, broken, ran in benign:
+            f.write("| %s | %s | %s | %s |\n" % (name, summ[:220], ", ".join(det) or "none", ", ".join(broken) or "none"))
+        f.write("\n%d refactorings, %d with an alarm.\n" % (len(benign), sum(1 for r in benign if r[4])))
+    print("SUMMARY.md: %d seeds (%d own-check), %d benign (%d alarms)" % (len(rows), sum(1 for r in rows if r[1] in r[4]), len(benign), sum(1 for r in benign if r[4])))
 
 
 if __name__ == "__main__":
